@@ -309,9 +309,27 @@ impl World {
                 | Op::Clone { .. }
                 | Op::FromStatic { .. }
         );
+        // a callback that acts on another handle while the operation runs
+        let fx: Option<Fx> = match op {
+            Op::Retain { r, .. } => r.fx,
+            Op::Extend { it, .. } => it.fx,
+            Op::Write { d, .. } => d.fx,
+            _ => None,
+        };
+        let fx = fx.filter(|f| Some(f.slot % SLOTS as u8) != op.mutated().map(|t| t % SLOTS as u8));
+        if let Some(f) = fx {
+            let p = self.slots.slot_ptr(f.slot as usize % SLOTS);
+            fx_arm(f.at, f.drop, p);
+        }
         let g0 = shadow::global_allocs();
         let res = catch_unwind(AssertUnwindSafe(|| self.apply_real_inner(op, r)));
         let g = shadow::global_allocs() - g0;
+        self.last_fx = None;
+        if let Some(f) = fx {
+            if fx_disarm() {
+                self.last_fx = Some((f.slot % SLOTS as u8, f.drop));
+            }
+        }
         self.last_other_allocs = None;
         match res {
             Ok(o) => {
@@ -561,6 +579,11 @@ impl World {
     /// Apply `op` to the model.
     pub fn apply_model(&mut self, op: &Op, r: &Resolved) -> Outcome {
         let res = catch_unwind(AssertUnwindSafe(|| self.apply_model_inner(op, r)));
+        if let Some((slot, true)) = self.last_fx {
+            // the callback dropped this handle during the real operation (items cloned from it beforehand keep
+            // their text, so the model forgets the handle only after the call)
+            self.model[slot as usize] = None;
+        }
         match res {
             Ok(o) => o,
             Err(p) => classify_panic(p, true),
